@@ -15,7 +15,7 @@ func init() { register("C07", "exploration", runC07) }
 
 func pickleRoundTrip(v starlark.Value) (starlark.Value, []byte, error) {
 	var buf bytes.Buffer
-	if err := pickle.NewEncoder(&buf, pickle.PicklerFunc(sval.HostPickler)).Encode(v); err != nil {
+	if err := pickle.NewEncoder(&buf, sval.HostPicklerT{}).Encode(v); err != nil {
 		return nil, nil, fmt.Errorf("encode: %w", err)
 	}
 	enc := append([]byte(nil), buf.Bytes()...)
@@ -237,6 +237,34 @@ func runC07(c *core.Ctx) {
 		check("slices/as-dict-keys", "tuple-slices-sharing-storage", d)
 	}
 
+	// 3b. a host value that is one of its own arguments (encoded through PickleRecursive), followed by memoized
+	// values: shared containers, self-referential containers, further host values.
+	for k := 0; k < 6; k++ {
+		mk := func() *sval.HostObj {
+			h := &sval.HostObj{Name: "R", Args: starlark.Tuple{starlark.MakeInt(k)}}
+			h.Args = append(h.Args, h)
+			return h
+		}
+		after := []starlark.Value{mkContainer("set", 2, 10), mkContainer("list", 3, 20), mkContainer("dict", 2, 30), mkContainer("host", 2, 40), mkContainer("tuple", 4, 50), starlark.String("a string that is long enough to be memoized")}[k]
+		h := mk()
+		check(fmt.Sprintf("rechost/shared-after/%d", k), "recursive-host-then-shared", starlark.NewList([]starlark.Value{h, after, after}))
+		h = mk()
+		check(fmt.Sprintf("rechost/shared-around/%d", k), "recursive-host-then-shared", starlark.NewList([]starlark.Value{after, h, after, h}))
+		h = mk()
+		d := starlark.NewDict(2)
+		d.SetKey(starlark.String("n"), h)
+		d.SetKey(starlark.String("self"), d)
+		d.SetKey(starlark.String("x"), after)
+		check(fmt.Sprintf("rechost/self-dict/%d", k), "recursive-host-then-cyclic", d)
+		h = mk()
+		l := starlark.NewList([]starlark.Value{h})
+		l.Append(l)
+		l.Append(after)
+		check(fmt.Sprintf("rechost/self-list/%d", k), "recursive-host-then-cyclic", starlark.Tuple{l, after, h})
+		h, h2 := mk(), mk()
+		check(fmt.Sprintf("rechost/two/%d", k), "recursive-host-then-shared", starlark.Tuple{h, h2, after, h, h2, after})
+	}
+
 	// 4. random nested values.
 	n := c.N(20000, 2000000)
 	core.Parallel(n, c.N(1, 14), func(i int) {
@@ -244,7 +272,7 @@ func runC07(c *core.Ctx) {
 		if !c.Want(id) {
 			return
 		}
-		rg := &sval.Gen{R: c.Rand(id), Host: true} // one PRNG stream per case: order independent
+		rg := &sval.Gen{R: c.Rand(id), Host: true, RecHost: i%2 == 1} // one PRNG stream per case: order independent
 		var pool []starlark.Value
 		check(id, "random", rg.Value(4, &pool))
 	})
